@@ -25,6 +25,22 @@ CHECKS = {
         "6/C11"),
 }
 
+CHECKS["C13"] = (
+    "Compound-key codec part of C13: for every list of <=3 strings of <=3 (quick) / <=4 (thorough) arbitrary bytes the solver shows "
+    "DecodeStringSlice(EncodeStringSlice(x)) == x on every path of the real encode.go code (binary.PutUvarint/Uvarint interpreted from "
+    "std source), equal encodings imply equal lists (<=2 x <=2 bytes), the uvarint pair round-trips every uint64, and components of "
+    "127/128/129/4095/4096/4097 bytes (symbolic fill byte) round-trip or are rejected.",
+    BASE_NOTE + "Typed scalar / container / field-checker parts of C13 are added as the bbolt-model harnesses land (see evidence for the harness list).",
+    "6/C13")
+CHECKS["C14"] = (
+    "For every strictly ordered set of <=3 (quick) / <=4 (thorough) byte strings of <=2 arbitrary bytes (empty string and shared prefixes included) "
+    "and every script of <=2/3 Next/Seek steps with symbolic seek targets, the solver shows on every path that each cursor stands on the first "
+    "admissible element or is invalid iff none exists: raw forward/reverse bolt cursors, typed forward/reverse bolt cursors (values without tag), "
+    "tree-set cursor (any insertion order, both directions, empty set), filtered cursor (symbolic filter bits), union cursor (both directions).",
+    BASE_NOTE + "bbolt is replaced by the mbolt model (single-leaf buckets), validated against real bbolt v1.4.0 on 36k operation sequences; "
+    "every counterexample is replayed on real bbolt. Outside: larger sets, longer elements, buckets spanning several pages.",
+    "6/C14")
+
 NOT_APPLICABLE = {
     "C18": "quantifies over goroutine schedules and data races on top of bbolt's MVCC; a sequential SSA symbolic executor has no schedule variable, bbolt's isolation is not encodable, and in the bbolt model it would hold by construction (DESIGN.md section 7)",
 }
